@@ -1,5 +1,6 @@
 import SrProofs.Thermal
 import SrProofs.LogProfile
+import SrProofs.ThermalDecay
 
 /-!
 # C13 — every wall boundary-condition kind reproduces the exact steady cylinder solution
@@ -168,6 +169,106 @@ theorem transient_nonexpansive (P : Prob ℝ) (d : Data) (T Ts : GField ℝ) (B 
   simp only [GField.comb] at u l
   constructor <;> linarith
 
+/-- **transient_contracts_weighted.** `Ts` a fixed point of the transient step, `φ` a barrier
+(`0 < φ ≤ Φ`, `A φ ≤ −δ`, compatible with the wall kinds): one step contracts the weighted error,
+`|Tⁿ − Ts| ≤ M·φ  ⟹  |T − Ts| ≤ ρ·M·φ` with `ρ = Φ/(Φ + dt·δ) < 1` — the strict version of
+`transient_nonexpansive`. -/
+theorem transient_contracts_weighted (P : Prob ℝ) (d : Data) (T Ts φ : GField ℝ) (δ Φ M : ℝ)
+    (hs : P.Sized) (hst : P.steady = false) (hdt : 0 < P.dt) (hw : P.WeightsNonneg)
+    (hδ : 0 < δ) (hΦ : 0 < Φ)
+    (hsol : (P.withData d).Solves T)
+    (hfix : (P.withData { d with Tn := Ts }).Solves Ts)
+    (hconv_in : ∀ tf h, d.inner = .conv tf h → ∀ j k, 0 ≤ P.dr * h j k / P.kk 1 j k)
+    (hconv_out : ∀ tf h, d.outer = .conv tf h → ∀ j k, 0 ≤ P.dr * h j k / P.kk P.N j k)
+    (hb : P.Barrier (d.inner.toE P.dr (fun j k => P.kk 1 j k))
+      (d.outer.toE P.dr (fun j k => P.kk P.N j k)) φ δ Φ)
+    (hM : 0 ≤ M)
+    (hen : ∀ i j k, P.isRealI i = true → P.isRealJ j = true → P.isRealK k = true →
+      |d.Tn i j k - Ts i j k| ≤ M * φ i j k) :
+    (∀ i j k, P.isRealI i = true → P.isRealJ j = true → P.isRealK k = true →
+      |T i j k - Ts i j k| ≤ Φ / (Φ + P.dt * δ) * M * φ i j k) ∧
+    0 < Φ / (Φ + P.dt * δ) ∧ Φ / (Φ + P.dt * δ) < 1 :=
+  ⟨solves_contracts_weighted P d T Ts φ δ Φ M hs hst hdt hw hδ hΦ hsol hfix hconv_in hconv_out hb
+    hM hen, decayRate_pos hΦ hdt hδ, decayRate_lt_one hΦ hdt hδ⟩
+
+/-- **transient_converges.** Constant coefficient `a`, uniform radial grid, at least one wall with
+prescribed temperature (the other of any kind, film number ≥ 0), constant wall data and source:
+the transient iterates converge geometrically to the fixed point `Ts` in the maximum norm,
+`|Tₙ − Ts| ≤ ρⁿ·Φ·B`, `ρ = Φ/(Φ + 4·a·dt) < 1`,
+`Φ = r_{N+1}² + 2 + 2·dr·r_{N+½}²·Σ_{m<N} 1/r_{m+½}` (1-D, 2-D and 3-D). -/
+theorem transient_converges (P : Prob ℝ) (d : Data) (T : ℕ → GField ℝ) (Ts : GField ℝ) (a B : ℝ)
+    (hs : P.Sized) (hst : P.steady = false) (hdt : 0 < P.dt) (hu : P.UniformRadial a)
+    (hconv_in : ∀ tf h, d.inner = .conv tf h → ∀ j k, 0 ≤ P.dr * h j k / P.kk 1 j k)
+    (hconv_out : ∀ tf h, d.outer = .conv tf h → ∀ j k, 0 ≤ P.dr * h j k / P.kk P.N j k)
+    (hwall : (∃ v, d.outer = .fix v) ∨ (∃ v, d.inner = .fix v))
+    (hstep : ∀ n, (P.withData { d with Tn := T n }).Solves (T (n+1)))
+    (hfix : (P.withData { d with Tn := Ts }).Solves Ts)
+    (h0 : ∀ i j k, P.isRealI i = true → P.isRealJ j = true → P.isRealK k = true →
+      |T 0 i j k - Ts i j k| ≤ B) :
+    (∀ n i j k, P.isRealI i = true → P.isRealJ j = true → P.isRealK k = true →
+      |T n i j k - Ts i j k|
+        ≤ (P.decayPhi / (P.decayPhi + P.dt * (4 * a))) ^ n * P.decayPhi * B) ∧
+    0 < P.decayPhi / (P.decayPhi + P.dt * (4 * a)) ∧
+    P.decayPhi / (P.decayPhi + P.dt * (4 * a)) < 1 ∧
+    P.decayPhi = (P.rr (P.N+1)) ^ 2 + 2
+      + 2 * P.dr * (P.rh P.N) ^ 2 * ∑ m ∈ Finset.range P.N, 1 / P.rh m := by
+  have hΦ : 0 < P.decayPhi := lt_of_lt_of_le P.decayC_pos hu.decayPhi_ge
+  have h4a : 0 < 4 * a := by have := hu.ha; positivity
+  exact ⟨fun n => converges_fix_wall P d T Ts a B hs hst hdt hu hconv_in hconv_out hwall hstep hfix
+    h0 n, decayRate_pos hΦ hdt h4a, decayRate_lt_one hΦ hdt h4a, rfl⟩
+
+/-- **transient_converges_conv_inner.** The same with a convective inner wall whose film number
+`dr·h/k` is at least `β0 > 0` (outer wall of any kind):
+`Φ = decayPhi + 2·dr·r_{N+½}²/(r_{½}·β0)`. -/
+theorem transient_converges_conv_inner (P : Prob ℝ) (d : Data) (T : ℕ → GField ℝ)
+    (Ts : GField ℝ) (a B β0 Φ : ℝ) (tf h : Nat → Nat → ℝ)
+    (hs : P.Sized) (hst : P.steady = false) (hdt : 0 < P.dt) (hu : P.UniformRadial a)
+    (hin : d.inner = .conv tf h) (hβ0 : 0 < β0)
+    (hβ : ∀ j k, P.isRealJ j = true → P.isRealK k = true → β0 ≤ P.dr * h j k / P.kk 1 j k)
+    (hconv_out : ∀ tf h, d.outer = .conv tf h → ∀ j k, 0 ≤ P.dr * h j k / P.kk P.N j k)
+    (hstep : ∀ n, (P.withData { d with Tn := T n }).Solves (T (n+1)))
+    (hfix : (P.withData { d with Tn := Ts }).Solves Ts)
+    (h0 : ∀ i j k, P.isRealI i = true → P.isRealJ j = true → P.isRealK k = true →
+      |T 0 i j k - Ts i j k| ≤ B)
+    (hΦ : Φ = P.decayPhi + 2 * P.dr * (P.rh P.N) ^ 2 / (P.rh 0 * β0)) :
+    (∀ n i j k, P.isRealI i = true → P.isRealJ j = true → P.isRealK k = true →
+      |T n i j k - Ts i j k| ≤ (Φ / (Φ + P.dt * (4 * a))) ^ n * Φ * B) ∧
+    0 < Φ / (Φ + P.dt * (4 * a)) ∧ Φ / (Φ + P.dt * (4 * a)) < 1 := by
+  have hΦ0 : 0 < Φ := by
+    have h1 := lt_of_lt_of_le P.decayC_pos hu.decayPhi_ge
+    have h2 : 0 ≤ 2 * P.dr * (P.rh P.N) ^ 2 / (P.rh 0 * β0) :=
+      div_nonneg hu.decayB_nonneg (mul_nonneg (hu.rh_pos 0).le hβ0.le)
+    rw [hΦ]; linarith
+  have h4a : 0 < 4 * a := by have := hu.ha; positivity
+  subst hΦ
+  exact ⟨fun n => converges_inner_conv P d T Ts a B β0 tf h hs hst hdt hu hin hβ0 hβ hconv_out hstep
+    hfix h0 n, decayRate_pos hΦ0 hdt h4a, decayRate_lt_one hΦ0 hdt h4a⟩
+
+/-- **transient_converges_conv_outer.** The mirror image: convective outer wall with film number
+at least `β0 > 0`, inner wall of any kind: `Φ = r_{N+1}² + 2 + 2·dr·r_{N+½}/β0`. -/
+theorem transient_converges_conv_outer (P : Prob ℝ) (d : Data) (T : ℕ → GField ℝ)
+    (Ts : GField ℝ) (a B β0 Φ : ℝ) (tf h : Nat → Nat → ℝ)
+    (hs : P.Sized) (hst : P.steady = false) (hdt : 0 < P.dt) (hu : P.UniformRadial a)
+    (hout : d.outer = .conv tf h) (hβ0 : 0 < β0)
+    (hβ : ∀ j k, P.isRealJ j = true → P.isRealK k = true → β0 ≤ P.dr * h j k / P.kk P.N j k)
+    (hconv_in : ∀ tf h, d.inner = .conv tf h → ∀ j k, 0 ≤ P.dr * h j k / P.kk 1 j k)
+    (hstep : ∀ n, (P.withData { d with Tn := T n }).Solves (T (n+1)))
+    (hfix : (P.withData { d with Tn := Ts }).Solves Ts)
+    (h0 : ∀ i j k, P.isRealI i = true → P.isRealJ j = true → P.isRealK k = true →
+      |T 0 i j k - Ts i j k| ≤ B)
+    (hΦ : Φ = (P.rr (P.N+1)) ^ 2 + 2 + 2 * P.dr * P.rh P.N / β0) :
+    (∀ n i j k, P.isRealI i = true → P.isRealJ j = true → P.isRealK k = true →
+      |T n i j k - Ts i j k| ≤ (Φ / (Φ + P.dt * (4 * a))) ^ n * Φ * B) ∧
+    0 < Φ / (Φ + P.dt * (4 * a)) ∧ Φ / (Φ + P.dt * (4 * a)) < 1 := by
+  have hΦ0 : 0 < Φ := by
+    have h2 : 0 ≤ 2 * P.dr * P.rh P.N / β0 := by
+      have := hu.hdr; have := hu.rh_pos P.N; positivity
+    rw [hΦ]; positivity
+  have h4a : 0 < 4 * a := by have := hu.ha; positivity
+  subst hΦ
+  exact ⟨fun n => converges_outer_conv P d T Ts a B β0 tf h hs hst hdt hu hout hβ0 hβ hconv_in hstep
+    hfix h0 n, decayRate_pos hΦ0 hdt h4a, decayRate_lt_one hΦ0 hdt h4a⟩
+
 /-! ### non-vacuity: the uniform steady state of a fixed/fixed tube -/
 noncomputable def ex : Prob ℝ :=
   { ndim := 1, N := 2, Nt := 0, Nz := 0, steady := true, dt := 1, dr := 1, dth := 1, dz := 1,
@@ -181,5 +282,53 @@ example : ex.Solves (fun _ _ _ => 7) := by
   · intro j k _ _; simp [ex, Prob.outerRes]
   · intro h; simp [ex] at h
   · intro h; simp [ex] at h
+
+/-! ### non-vacuity of the decay theorems: a transient fixed/fixed tube with two real nodes -/
+noncomputable def exT : Prob ℝ :=
+  { ndim := 1, N := 2, Nt := 0, Nz := 0, steady := false, dt := 1, dr := 1, dth := 1, dz := 1,
+    rr := fun i => 9 + i, c := fun _ _ _ => 3, kk := fun _ _ _ => 3, qc := fun _ _ _ => 1,
+    src := fun _ _ _ => 0, Tn := fun _ _ _ => 7,
+    inner := .fix (fun _ _ => 7), outer := .fix (fun _ _ => 7) }
+
+example : exT.Sized := ⟨by simp [exT], by simp [exT], by simp [exT]⟩
+
+example : exT.UniformRadial 3 :=
+  ⟨by norm_num, fun _ _ _ => rfl, fun i => by simp [exT]; ring, by simp [exT], by simp [exT]⟩
+
+/-- the explicit barrier `φ_i = 200 − r_i²` (`φ_1 = 100`, `φ_2 = 79`): `A φ = −12 = −4a`, `Φ = 200` -/
+example : exT.Barrier .fix .fix (fun i _ _ => 200 - (9 + (i : ℝ)) ^ 2) 12 200 := by
+  have hI : ∀ i, exT.isRealI i = true → i = 1 ∨ i = 2 := by
+    intro i hi
+    have h1 : 1 ≤ i ∧ i ≤ exT.N := by simpa [Prob.isRealI] using hi
+    have h2 : exT.N = 2 := rfl
+    omega
+  refine ⟨?_, ?_, ?_, ⟨?_, ?_⟩, ?_, ?_⟩
+  · intro i j k hi _ _
+    rcases hI i hi with rfl | rfl <;> norm_num
+  · intro i j k hi _ _
+    rcases hI i hi with rfl | rfl <;> norm_num
+  · intro i j k hi _ _
+    rcases hI i hi with rfl | rfl <;>
+      simp [exT, Prob.applyA, Prob.wrm, Prob.wrp, Prob.wtm, Prob.wtp, Prob.wzm, Prob.wzp,
+        Prob.rh, Prob.ahr] <;> norm_num
+  · intro h; simp [exT] at h
+  · intro h; simp [exT] at h
+  · intro j k _ _; simp [EWall.bar]
+  · intro j k _ _; simp [EWall.bar]
+
+/-- the hypotheses of `transient_converges` are jointly satisfiable -/
+example : ∃ (d : Data) (T : ℕ → GField ℝ) (Ts : GField ℝ),
+    ((∃ v, d.outer = .fix v) ∨ (∃ v, d.inner = .fix v)) ∧
+    (∀ n, (exT.withData { d with Tn := T n }).Solves (T (n+1))) ∧
+    (exT.withData { d with Tn := Ts }).Solves Ts := by
+  have hsol : (exT.withData { exT.data with Tn := fun _ _ _ => 7 }).Solves (fun _ _ _ => 7) := by
+    refine ⟨?_, ?_, ?_, ?_, ?_⟩
+    · intro i j k _ _ _
+      simp [exT, Prob.withData, Prob.data, Prob.lhsReal, Prob.rhsReal, Prob.applyA]
+    · intro j k _ _; simp [exT, Prob.withData, Prob.data, Prob.innerRes]
+    · intro j k _ _; simp [exT, Prob.withData, Prob.data, Prob.outerRes]
+    · intro h; simp [exT, Prob.withData] at h
+    · intro h; simp [exT, Prob.withData] at h
+  exact ⟨exT.data, fun _ _ _ _ => 7, fun _ _ _ => 7, Or.inl ⟨_, rfl⟩, fun _ => hsol, hsol⟩
 
 end SrProps.C13
